@@ -174,12 +174,14 @@ def case(te, seed, variant, mode, row=None):
 
 def replay(c):
     from ..astjson import load
-    node = load(c['ast'])
-    te = astgen.TE(node, bool if c['mode'] == 'where' else object, c['cols'], c['locus'], 1)
     acc = Acc()
     if c.get('kind') == 'from':
         check_from(c['which'], acc)
+    elif c.get('kind') == 'literals':
+        check_literals(acc, only=c['which'])
     else:
+        node = load(c['ast'])
+        te = astgen.TE(node, bool if c['mode'] == 'where' else object, c['cols'], c['locus'], 1)
         check_expr(te, c['seed'], acc, variants=(c['variant'],))
     return acc.violations
 
@@ -270,6 +272,51 @@ def check_from(which, acc):
             acc.violation(f'from:{cn}', f'SELECT date, account, number FROM {cn} WHERE {wn}: got {got!r}, reference {exp!r}', {'kind': 'from', 'which': f'{cn}|{wn}'})
 
 
+# ---- several literals in ONE statement ----------------------------------------------------------
+
+def literal_statements():
+    """(tag, statement, expected rows): literals that are equal as values but differ in type or in scale occur together
+    in one statement; each occurrence keeps its own value (observed through str(), which shows the scale)."""
+    import datetime
+    import decimal
+    D = decimal.Decimal
+    Cn, Cl, Fn, T = ast.Constant, ast.Column, ast.Function, ast.Target
+    lits = [D('0.5'), D('0.50'), D('1.0'), D('1.00'), 1, D('1'), True, D('0'), D('0.00'), 0, False, 'a', 'a', datetime.date(2020, 1, 2)]
+    out = []
+    for order, seq in (('fwd', lits), ('rev', list(reversed(lits)))):
+        targets = [T(Fn('str', [Cn(v)]), f's{i}') for i, v in enumerate(seq)] + [T(Cn(v), f'v{i}') for i, v in enumerate(seq)]
+        exp = tuple(str(v) if not isinstance(v, bool) else ('TRUE' if v else 'FALSE') for v in seq) + tuple(seq)
+        out.append((f'literals-{order}', ast.Select(targets, ast.Table('lt'), None, None, None, None, None, None), [exp] * 2))
+    x = Cl('x')
+    for a, b in ((D('1.0'), D('1.00')), (D('1.00'), D('1.0')), (1, D('1.0')), (D('2.50'), D('2.5'))):
+        targets = [T(Fn('str', [ast.Mul(x, Cn(a))]), 'p'), T(Fn('str', [ast.Mul(x, Cn(b))]), 'q'), T(Fn('str', [ast.Add(Cn(a), Cn(b))]), 'r')]
+        rows = [D('2'), D('0.5')]
+        exp = [(str(r * a), str(r * b), str(a + b)) for r in rows]
+        out.append((f'literal-pair-{a}-{b}', ast.Select(targets, ast.Table('lt'), None, None, None, None, None, None), exp))
+        # the same value in a target and in WHERE
+        out.append((f'literal-where-{a}-{b}', ast.Select([T(Fn('str', [Cn(a)]), 'p')], ast.Table('lt'), ast.Less(x, Cn(b)), None, None, None, None, None),
+                    [(str(a),) for r in rows if r < b]))
+    return out
+
+
+def check_literals(acc, only=None):
+    import decimal
+    conn = connect(lt=HTable([('x', decimal.Decimal)], [(decimal.Decimal('2'),), (decimal.Decimal('0.5'),)], name='lt'))
+    for tag, stmt, exp in literal_statements():
+        if only is not None and tag != only:
+            continue
+        acc.count('programs')
+        acc.count('literal_programs')
+        try:
+            got = conn.execute(stmt).fetchall()
+        except Exception as ex:
+            acc.violation(f'crash:{crash_fingerprint(ex)}', f'{show(stmt)} raised {type(ex).__name__}: {ex}', {'kind': 'literals', 'which': tag})
+            continue
+        acc.count('rowsteps', len(got))
+        if [tuple(map(typed, r)) for r in got] != [tuple(map(typed, r)) for r in exp]:
+            acc.violation('literals:same-value-different-literal', f'{show(stmt)}: got {got!r}, expected {exp!r}', {'kind': 'literals', 'which': tag})
+
+
 # ---- driver -------------------------------------------------------------------------------
 
 def programs(tier, seed):
@@ -356,6 +403,7 @@ def shard_fn(shard, nshards, tier, seed):
             acc.sample({'expr': show(te.node), 'columns': sorted(te.cols), 'type': astgen.tname(te.dtype)})
     if shard == 0:
         check_from(None, acc)
+        check_literals(acc)
     return acc
 
 
